@@ -212,8 +212,8 @@ def run_scripts(prop, tier, seed, build, extra_env=None, tag="main"):
     procs = []
     tmpdir = os.path.join(VERIF, "evidence", ".tmp")
     os.makedirs(tmpdir, exist_ok=True)
-    for cfg in spec.get("configs", ["pure", "speedup"]):
-        out = os.path.join(tmpdir, "%s-%s-%s-%d.json" % (prop, cfg, tag, os.getpid()))
+    for script, cfg in [(sc, c) for sc in spec.get("scripts", [spec["script"]]) for c in spec.get("configs", ["pure", "speedup"])]:
+        out = os.path.join(tmpdir, "%s-%s-%s-%s-%d.json" % (prop, os.path.basename(script)[:-3], cfg, tag, os.getpid()))
         env = dict(os.environ)
         env.update({"BEZIER_PKG": os.path.join(build, "pkg_" + cfg), "BEZIER_CONFIG": cfg,
                     "BEZIER_BUILD": build, "VERIF_TIER": tier, "VERIF_SEED": str(seed), "VERIF_RESULT": out,
@@ -222,33 +222,37 @@ def run_scripts(prop, tier, seed, build, extra_env=None, tag="main"):
         if extra_env:
             env.update(extra_env)
         interp = spec.get("python", {}).get(cfg, PY)
-        p = subprocess.Popen([interp, os.path.join(HERE, spec["script"])], env=env, cwd=VERIF,
+        p = subprocess.Popen([interp, os.path.join(HERE, script)], env=env, cwd=VERIF,
                              stdout=subprocess.PIPE, stderr=subprocess.STDOUT, text=True)
-        procs.append((cfg, p, out))
+        procs.append((cfg, p, out, script))
     results = []
     limit = int(os.environ.get("VERIF_SCRIPT_TIMEOUT", "1500" if tier == "quick" else "14400"))
-    for cfg, p, out in procs:
+    for cfg, p, out, script in procs:
         try:
             so, _ = p.communicate(timeout=limit)
         except subprocess.TimeoutExpired:
-            for _, q, _ in procs:
+            for _, q, _, _ in procs:
                 q.kill()
-            infra("property script %s (%s) exceeded %d s" % (spec["script"], cfg, limit))
+            infra("property script %s (%s) exceeded %d s" % (script, cfg, limit))
         if p.returncode != 0 or not os.path.exists(out):
             crash = script_crash(so) if p.returncode == 1 else None
             if crash is None:
-                infra("property script %s (%s) failed rc=%s:\n%s" % (spec["script"], cfg, p.returncode, so[-4000:]))
+                infra("property script %s (%s) failed rc=%s:\n%s" % (script, cfg, p.returncode, so[-4000:]))
             # the correspondence script itself stopped on something the implementation returned (a NaN, a wrong
             # shape, ...): the correspondence no longer checks on this tree; never silently an infrastructure failure
             log("%s[%s]: correspondence script stopped: %s" % (prop, cfg, crash))
-            results.append({"prop": prop, "config": cfg, "evaluations": 0, "distinct_nontrivial": 0, "samples": [],
+            results.append({"prop": prop, "config": cfg, "script": script, "evaluations": 0, "distinct_nontrivial": 0, "samples": [],
                             "dist": {"mismatch_ops": {"script-stopped": 1}}, "failures": [], "notes": [], "skipped": {},
                             "wall_s": 0.0,
                             "mismatches": [{"op": "script-stopped", "config": cfg, "inputs": None, "impl": crash,
                                             "model": None, "note": so[-3000:]}]})
             continue
         with open(out) as fh:
-            results.append(json.load(fh))
+            data = json.load(fh)
+        data["script"] = script
+        for f in data.get("failures", []):
+            f["script"] = script
+        results.append(data)
         os.unlink(out)
         if so.strip():
             for line in so.strip().split("\n")[-10:]:
@@ -425,7 +429,11 @@ def write_evidence(prop, tier, seed, lean, results, known_hit, violations, extra
     samples = []
     for res in results:
         samples += res["samples"][:4]
-    dist = {res["config"]: res["dist"] for res in results}
+    multi = len(spec.get("scripts", [])) > 1
+
+    def rkey(res):
+        return res["config"] if not multi else "%s:%s" % (os.path.basename(res.get("script", "?"))[:-3], res["config"])
+    dist = {rkey(res): res["dist"] for res in results}
     ev = {
         "property_id": prop, "tier": tier, "seed": seed, "level": "proof",
         "coverage": {
@@ -449,7 +457,7 @@ def write_evidence(prop, tier, seed, lean, results, known_hit, violations, extra
             "distribution": dist,
             "correspondence_mismatches": sum(sum(res["dist"].get("mismatch_ops", {}).values()) for res in results),
             "known_findings_hit": sorted(known_hit.keys()),
-            "skipped": {res["config"]: res["skipped"] for res in results},
+            "skipped": {rkey(res): res["skipped"] for res in results},
             "extract_problems": extract_problems,
             "search_after_break": searched,
             "notes": [n for res in results for n in res["notes"]],
@@ -477,7 +485,7 @@ def replay(prop, path):
     env.update({"BEZIER_PKG": os.path.join(build, "pkg_" + cfg), "BEZIER_CONFIG": cfg, "BEZIER_BUILD": build,
                 "PYTHONPATH": HERE, "VERIF_REPLAY": json.dumps(f["replay"])})
     env.pop("VERIF_RESULT", None)
-    r = subprocess.run([PROPS[prop].get("python", {}).get(cfg, PY), os.path.join(HERE, PROPS[prop]["script"])], env=env, cwd=VERIF)
+    r = subprocess.run([PROPS[prop].get("python", {}).get(cfg, PY), os.path.join(HERE, f.get("script") or PROPS[prop]["script"])], env=env, cwd=VERIF)
     sys.exit(r.returncode)
 
 
